@@ -710,7 +710,7 @@ class Interp:
     def getattr(self, obj, name, node=None):
         if isinstance(obj, ModuleRef):
             return self.world.module_attr(obj.name, name, self)
-        if type(obj).__name__ == 'module':
+        if type(obj).__name__ in ('module', 'SimpleNamespace'):
             return getattr(obj, name)
         if isinstance(obj, (SFunc, ClassRef)) and name == 'name':
             return obj.name
